@@ -39,6 +39,11 @@ MUTANTS = [
      "        self._extended_md = dict(extended_md)", "        self._extended_md = extended_md"),
     ("C07-found-md-kept", "C07", P + "common/executor.py",
      "        self._found_extended_md = defaultdict(list)\n        try:", "        try:"),
+    ("C07-reset-keeps-registered-extended-md-types", "C07", P + "common/executor.py",
+     "        self._inject_blocks = []\n        self._extended_md = {}\n", "        self._inject_blocks = []\n"),
+    ("C07-job-blocks-appended-again", "C07", P + "common/executor.py",
+     "        self._job_option_blocks = [\n            m for m in cpp_functions if isinstance(m, JobScriptSpecification)\n        ]\n",
+     "        self._job_option_blocks.extend(m for m in cpp_functions if isinstance(m, JobScriptSpecification))\n"),
     ("C07-defaults-at-construction-again", "C07", P + "cms/aod/executor.py",
      "        super().__init__(file_names, runner_name, template_dir_name, method_names)\n",
      "        super().__init__(file_names, runner_name, template_dir_name, method_names)\n        define_default_cms_types()\n"),
